@@ -180,7 +180,8 @@ def monitor_c03(ctx):
     a = _run('c03', 'c03', pays, 'container op sequences around the cap + concatenation / str->list witnesses: length of every list / dict '
              'returned by a node or reachable from result / names vs max(10000, longest host container or str, longest literal)')
     b = _run('c03_adders', 'c03_adders', [{'stmts': [['push(c, 1)', ['list']], ['c.push(1)', ['list']], ['insert(c, 0, 1)', ['list']], ['c[0] = 1', ['list', 'dict']],
-                                                      ['c["k"] = 1', ['dict']], ['c[5] = 1', ['dict']], ['c[True] = 0', ['dict']], ['c[1.0] = 0', ['dict']], ['c[0] += 1', ['list']], ['c["0"] += 1', ['dict']],
+                                                      ['c["k"] = 1', ['dict']], ['c[5] = 1', ['dict']], ['c[True] = 0', ['dict']], ['c[1.0] = 0', ['dict']], ['c[10000] = 1', []], ['c[9999] = 1', []], ['c[10001] = 1', []], ['c[20000] = 1', []],
+                                                      ['c[10000] += 1', []], ['insert(c, 10000, 1)', ['list']], ['c[-10001] = 1', []], ['c[0] += 1', ['list']], ['c["0"] += 1', ['dict']],
                                                       ['push(c, 1, 2, 3)', []], ['c | push(1)', ['list']], ['c.push(1, 2)', []],
                                                       ['insert(c, 0, 1, 2)', []], ['c | push(1, 2, 3, 4, 5)', []],
                                                       # a new key through the compound form; the adders reached under another name, as a value, via a host callback
@@ -211,6 +212,10 @@ def monitor_c04(ctx):
         pays.append({'line': c[0].replace(' (modelparser)', '')})
     e = lambda src, ent='': gens2.eval_line(src, ent, hostfns=False)
     big30 = f'(S:{hx("a")} I:{10 ** 30}) (S:{hx("b")} I:{10 ** 30})'
+    small = f'(S:{hx("a")} I:1) (S:{hx("b")} I:3) (S:{hx("n")} I:7) (S:{hx("t")} T)'
+    for src in ['a / b', 'n / b', 'a / (b * n)', '(a + a) / b', 't / b', 'len("a") / len("abc")', 'a / 10 ** 30', '[a / b, n / b]', 'x = a / b; x * 3', 'a / b + 1', 'a / b - n / b',
+                'b / n / n', 'index_of([5, 6, 7], 7) / b', 'sum([a, a]) / b', 'max(a, b) / n', 'f = (p, q) => p / q; f(a, b)', 'map([b, n], v => a / v)']:
+        pays.append({'line': e(src, small)})
     pays += [{'line': e('a *= b; a', big30)}, {'line': e('s *= 3; s', f'(S:{hx("s")} S:{hx("ab")}) ')}, {'line': e('l = [a]; l[0] *= b; l', big30)},
              {'line': e('int(10 ** 99)')}, {'line': e('int(a)', f'(S:{hx("a")} D:0:1:3000:b)')}, {'line': e('floor(a)', f'(S:{hx("a")} D:0:1:3000:b)')},
              {'line': e('sum(l)', f'(S:{hx("l")} (L 1' + f' I:{10 ** 30 - 1}' * 12 + '))')}, {'line': e('a * b', big30)}, {'line': e('a ** 2', big30)}]
